@@ -830,11 +830,11 @@ def build(tier, seed):
     for rule, dsep, tsep, fmt in dec:
         if fmt == "fixed":
             continue  # fixed: blank padding is C03's subject; Decimal under fixed is exercised natively below
-        mk, rp = make_decimal(rule, dsep, tsep, fmt, 4 if tier == "quick" else 6)
+        mk, rp = make_decimal(rule, dsep, tsep, fmt, 4 if tier == "quick" else 5)
         q.append(Query("C02/Decimal/%s/rule=%r/sep=%s%s" % (fmt, rule, dsep, tsep or "-"), "decimal", mk,
                        "Decimal field (rule %r, decimal separator %r, thousands separator %r, %s): every cell up to %d "
-                       "characters, parsed value k/100 for |k|<10^6" % (rule, dsep, tsep, fmt, 4 if tier == "quick" else 6),
-                       budget_s=600, per_path_timeout=60, expect=("acc", "nan", "out") if rule else ("acc", "nan"),
+                       "characters, parsed value k/100 for |k|<10^6" % (rule, dsep, tsep, fmt, 4 if tier == "quick" else 5),
+                       budget_s=600 if tier == "quick" else 2400, per_path_timeout=60, expect=("acc", "nan", "out") if rule else ("acc", "nan"),
                        replay=rp, functions=FUNCS,
                        stubs=("S-DEC fields.decimal.Decimal -> InvalidOperation or a symbolic finite decimal; records the text", "S-FMT")))
     for rule, dsep, tsep, fmt in (("...99.99", ".", ",", "delimited"), ("-1.5:20.25, 30:", ".", "", "delimited"), ("", ".", "", "excel")):
